@@ -66,7 +66,8 @@ def _env():
     from ropt.transforms.base import NonLinearConstraintTransform, ObjectiveTransform
 
     class Scripted(Optimizer):
-        queue: list = []
+        queue: list = []         # one specification per optimizer instance, in order of creation
+        evaluator = None         # the fault-injecting evaluator of the current run
 
         def __init__(self, config, cb):
             self.cb = cb
@@ -74,16 +75,23 @@ def _env():
 
         def start(self, x0):
             nvar = x0.size
-            for req in self.spec["script"]:
-                def point(p):
-                    x = np.zeros(nvar)
-                    x[0] = 0.25 * p
-                    return x
-                if req["batch"] > 0:
-                    x = np.vstack([point(req["pt"] + i) for i in range(req["batch"])])
-                else:
-                    x = point(req["pt"])
-                self.cb(x, return_functions=req["kind"] in ("F", "FG"), return_gradients=req["kind"] in ("G", "FG"))
+            ev = Scripted.evaluator
+            saved = (ev.pending, ev.pcase)         # a nested run must not disturb the pending outer request
+            try:
+                for req in self.spec["script"]:
+                    def point(p):
+                        x = np.zeros(nvar)
+                        x[0] = 0.25 * p
+                        return x
+                    if req["batch"] > 0:
+                        x = np.vstack([point(req["pt"] + i) for i in range(req["batch"])])
+                    else:
+                        x = point(req["pt"])
+                    # each request leads to exactly one evaluator call: announce its fault
+                    ev.pending, ev.pcase = req.get("fault"), self.spec["case14"]
+                    self.cb(x, return_functions=req["kind"] in ("F", "FG"), return_gradients=req["kind"] in ("G", "FG"))
+            finally:
+                ev.pending, ev.pcase = saved
 
         @property
         def allow_nan(self):
@@ -180,30 +188,26 @@ def make_config(case, maxf="case"):
 
 class FaultEvaluator:
     """Deterministic evaluator: objective = |x - 0.5|^2 + 10 * rank offset of the realization; the
-    constraint equals the objective; the fault of the current call index decides NaNs / exceptions."""
+    constraint equals the objective; the pending fault (announced by the scripted optimizer / the
+    driver just before the request) decides NaNs / exceptions."""
 
-    def __init__(self, case, faults, log=None):
-        self.case = case
-        self.faults = faults        # list indexed by evaluator call
+    def __init__(self):
+        self.pending = None      # fault of the next call
+        self.pcase = None        # C14-style configuration of the step that issues the call
         self.calls = 0
-        self.log = log
 
     def __call__(self, variables, ctx):
         import numpy as np
         from ropt.enums import OptimizerExitCode
         from ropt.evaluator import EvaluatorResult
         from ropt.exceptions import OptimizationAborted
-        i = self.calls
         self.calls += 1
-        f = self.faults[i] if i < len(self.faults) else None
-        if self.log is not None:
-            self.log.append(i)
+        f = self.pending
         if f is not None and f.get("exc") == "raise":
             raise ValueError("injected evaluator failure")
         if f is not None and f.get("exc") == "abort":
             raise OptimizationAborted(exit_code=OptimizerExitCode.USER_ABORT)
-        R = self.case["R"]
-        order = self.case["order"]
+        order = self.pcase["order"]
         rank = {r: k for k, r in enumerate(order)}
         reals = np.asarray(ctx.realizations)
         perts = None if ctx.perturbations is None else np.asarray(ctx.perturbations)
@@ -238,19 +242,25 @@ def _res_tuple(item):
     return ["G", item.gradients is not None, allf]
 
 
+def inner_case(case):
+    """C14-style configuration of the nested runs: the outer configuration with its own budget and threshold."""
+    n = case["nested"]
+    return {**case, "maxf": n.get("maxf"), "rmin": n.get("rmin", case["rmin"]), "nested": None, "step": "optimizer"}
+
+
 def run_impl(case):
     import warnings
     warnings.simplefilter("ignore")
-    import numpy as np
     from ropt.enums import EventType
     from ropt.plan import OptimizerContext, Plan
     from ropt.plugins import PluginManager
     env = _env()
+    Scripted = env["Scripted"]
     pm = PluginManager()
     pm.add_plugin("optimizer", "verifscript", env["ScriptedPlugin"]())
     script = case["script"]
-    faults = [r.get("fault") for r in script]
-    evaluator = FaultEvaluator(case, faults)
+    evaluator = FaultEvaluator()
+    Scripted.evaluator = evaluator
     ctx = OptimizerContext(evaluator=evaluator, plugin_manager=pm)
     delivered, events, shapes_ok = [], [], [True]
 
@@ -268,11 +278,28 @@ def run_impl(case):
     plan = Plan(ctx)
     transforms = make_transforms(case["transform"])
     cfg = make_config(case)
+    inner = None
     try:
         if case["step"] == "optimizer":
-            env["Scripted"].queue[:] = [{"script": script, "allow_nan": case["allow_nan"]}]
+            Scripted.queue[:] = [{"script": script, "allow_nan": case["allow_nan"], "case14": case}]
             st = plan.add_step("optimizer")
-            code = plan.run_step(st, config=cfg, transforms=transforms)
+            kw = {}
+            if case.get("nested") is not None:
+                ic = inner_case(case)
+                icfg = make_config(ic)
+                for sc in case["nested"]["scripts"]:
+                    Scripted.queue.append({"script": sc, "allow_nan": case["allow_nan"], "case14": ic})
+                inner = Plan(ctx)
+                ist = inner.add_step("optimizer")
+                itr = inner.add_handler("tracker", sources={ist})
+
+                def f(p, variables):
+                    p.run_step(ist, config=icfg, variables=variables)
+                    return p.get(itr, "results")
+
+                inner.add_function(f)
+                kw["nested_optimization"] = inner
+            code = plan.run_step(st, config=cfg, transforms=transforms, **kw)
         else:
             req = script[0]
             st = plan.add_step("evaluator")
@@ -280,18 +307,20 @@ def run_impl(case):
                 variables = [[0.25 * (req["pt"] + i), 0.0] for i in range(req["batch"])]
             else:
                 variables = [0.25 * req["pt"], 0.0]
+            evaluator.pending, evaluator.pcase = req.get("fault"), case
             code = plan.run_step(st, config=cfg, transforms=transforms, variables=variables)
         outcome = ["exit", int(code.value)]
     except BaseException as e:  # noqa: BLE001 - the class is the observation
         outcome = ["exc", type(e).__name__]
     return {"outcome": outcome, "delivered": delivered, "events": events, "calls": evaluator.calls,
-            "aborted": bool(plan.aborted), "transformed_ok": shapes_ok[0]}
+            "aborted": bool(plan.aborted), "inner_aborted": bool(inner.aborted) if inner is not None else False,
+            "transformed_ok": shapes_ok[0]}
 
 
 # ---------------------------------------------------------------------------------------------
 # independent Python oracle: the property's clauses evaluated on the implementation's output
 # ---------------------------------------------------------------------------------------------
-EXIT = {"TOO_FEW": 1, "MAX_FUNCTIONS": 2, "USER_ABORT": 4, "OPT_FINISHED": 5, "EVAL_FINISHED": 6}
+EXIT = {"TOO_FEW": 1, "MAX_FUNCTIONS": 2, "NESTED_FAILED": 3, "USER_ABORT": 4, "OPT_FINISHED": 5, "EVAL_FINISHED": 6}
 EV = {"SE": 1, "FE": 2, "SO": 3, "FO": 4, "SES": 5, "FES": 6}
 
 
@@ -405,13 +434,39 @@ def expected(case):
         info["decider"] = "threshold" if few else None
         return {"outcome": ["exit", EXIT["TOO_FEW"] if few else EXIT["EVAL_FINISHED"]], "delivered": payload,
                 "events": events + [EV["FE"], EV["FES"]]}, info
+    return _expected_optimizer(case, info)
+
+
+def _expected_optimizer(case, info, top=True):
+    """Optimizer step (top = the step of the case; otherwise one nested run)."""
+    delivered = []
     events = [EV["SO"]]
     completed, cache, out = 0, None, None
     check_failures = case["rmin"] < 1 and not case["allow_nan"]
+    nested = case.get("nested") if top else None
+    has = False
     for i, req in enumerate(case["script"]):
         if case.get("maxf") is not None and completed >= case["maxf"]:
             out, info["decider"], info["stop_index"] = EXIT["MAX_FUNCTIONS"], "budget", i
             break
+        if nested is not None:
+            # the nested plan runs before the outer evaluation; its tracker keeps the best trackable result
+            iinfo = {"decider": None, "inside_results": None, "stop_index": None}
+            iexp, iinfo = _expected_optimizer({**inner_case(case), "script": nested["scripts"][i]}, iinfo, top=False)
+            delivered = delivered + iexp["delivered"]
+            events = events + iexp["events"]
+            has = has or any(r[0] == "F" and r[1] and not r[2] for r in iexp["delivered"])
+            if iinfo["decider"] in ("filter", "estimator"):
+                info["nested_inside"] = True
+            if iexp["outcome"][0] == "exc":
+                info["decider"], info["stop_index"] = "raise", i
+                return {"outcome": iexp["outcome"], "delivered": delivered, "events": events}, info
+            if iexp["outcome"][1] == EXIT["USER_ABORT"]:
+                out, info["decider"], info["stop_index"] = EXIT["USER_ABORT"], "abort", i
+                break
+            if not has:
+                out, info["decider"], info["stop_index"] = EXIT["NESTED_FAILED"], "nested-no-result", i
+                break
         events.append(EV["SE"])
         tag, payload, counted, cache = _eval_req(case, req, cache)
         if tag == "raise":
@@ -461,7 +516,7 @@ def oracle(case, obs):
     if out != exp["outcome"]:
         return {"clause": "exit-code-of-first-terminating-condition", "detail": {"got": out, "expected": exp["outcome"], "decider": info["decider"]}}
     nf = sum(1 for r in obs["delivered"] if r[0] == "F")
-    if case["step"] == "optimizer" and case.get("maxf") is not None and _cache_respecting(case):
+    if case["step"] == "optimizer" and case.get("maxf") is not None and _cache_respecting(case) and not case.get("nested"):
         B = max([1] + [r["batch"] for r in case["script"]])
         if nf > case["maxf"] + B - 1:
             return {"clause": "budget-exceeded", "detail": {"function_results": nf, "max_functions": case["maxf"], "largest_batch": B}}
@@ -479,6 +534,8 @@ def oracle(case, obs):
 def known_signature(case, obs, violation):
     """C14:abort-inside-calculate -- the too-few decision was taken by a filter or estimator inside
     calculate and the sole discrepancy is the missing delivery of that evaluation's results."""
+    if case.get("nested"):
+        return None
     exp, info = expected(case)
     if info["decider"] not in ("filter", "estimator"):
         return None
@@ -543,7 +600,8 @@ def _mk(step, R, P, rmin, pmin, allow, maxf, filt, est, tr, order, script):
     # derived from the other fields so that the generator streams stay aligned
     h = (R + 3 * P + 5 * rmin + 7 * len(script) + 11 * TRANSFORMS.index(tr) + (13 if filt else 0) + (17 if allow else 0))
     return {"step": step, "R": R, "P": P, "rmin": rmin, "pmin": pmin, "allow_nan": allow, "maxf": maxf, "filter": filt,
-            "estimator": est, "transform": tr, "order": order, "bounds": h % 2 == 0, "linear": h % 3 == 0, "script": script}
+            "estimator": est, "transform": tr, "order": order, "bounds": h % 2 == 0, "linear": h % 3 == 0, "script": script,
+            "nested": None}
 
 
 def _req(kind, pt, batch, fault=None):
@@ -661,7 +719,43 @@ def _random(tier, rng):
                   "stddev" if rng.random() < 0.3 else "mean", rng.choice(TRANSFORMS), order, script)
 
 
+def _nested(tier, rng):
+    """Outer optimizer step with a nested optimization: inner runs that fail at their first evaluation (no result ->
+    NESTED_OPTIMIZER_FAILED), produce results, are stopped by their budget, raise or abort; outer faults and budgets."""
+    n = 350 if tier == "quick" else 6000
+    for _ in range(n):
+        R = rng.choice([1, 2, 2, 3])
+        P = rng.choice([1, 2])
+        L = rng.randint(1, 3)
+        outer, scripts = [], []
+        first_bad = rng.random() < 0.45          # the very first inner evaluation fails: the tracker stays empty
+        for i in range(L):
+            kind = rng.choice(["F", "F", "FG"])
+            outer.append(_req(kind, rng.choice([0, 1]), 0, _random_fault(rng, kind, 0, R, P) if rng.random() < 0.4 else None))
+            sc = []
+            for j in range(rng.randint(1, 3)):
+                k2, pt, batch = rng.choice(REQS)
+                fault = None
+                u = rng.random()
+                if i == 0 and j == 0 and first_bad:
+                    fault = {"fm": [[True] * R for _ in range(max(1, batch))]}
+                    if k2 != "F":
+                        fault["pm"] = [[False] * P for _ in range(R)]
+                elif u < 0.3:
+                    fault = _random_fault(rng, k2, batch, R, P)
+                sc.append(_req(k2, pt, batch, fault))
+            scripts.append(sc)
+        rmin = rng.randint(0, R)
+        order = list(range(R))
+        rng.shuffle(order)
+        c = _mk("optimizer", R, P, rmin, rng.randint(1, P), rng.random() < 0.5,
+                rng.choice([None, None] + list(range(1, L + 2))), None, "mean", "none", order, outer)
+        c["nested"] = {"scripts": scripts, "maxf": rng.choice([None, None, 1, 2]), "rmin": rng.randint(0, R)}
+        yield c
+
+
 def gen_cases(tier, rng):
+    yield from _nested(tier, rng)
     yield from _budget_sweep(tier, rng)
     yield from _evaluator_steps(tier, rng)
     yield from _structured(tier, rng)
@@ -707,8 +801,12 @@ def _res_term(r):
 def coq_case(case, obs):
     out = obs["outcome"]
     o = f"(OExit {cq.z(out[1])})" if out[0] == "exit" else f"(OExc {cq.s(out[1])})"
+    nested = "None"
+    if case.get("nested"):
+        ic = inner_case(case)
+        nested = f"(Some ({cfg_term(ic)}, {cq.lst(cq.lst(_req_term(ic, r) for r in sc) for sc in case['nested']['scripts'])}))"
     return (f"(Build_case {cq.b(case['step'] == 'evaluator')} {cfg_term(case)} "
-            f"{cq.lst(_req_term(case, r) for r in case['script'])} {o} "
+            f"{cq.lst(_req_term(case, r) for r in case['script'])} {nested} {o} "
             f"{cq.lst(_res_term(r) for r in obs['delivered'])} {cq.zs(obs['events'])})")
 
 
@@ -726,16 +824,24 @@ def nontrivial(case, obs):
 def features(case, obs):
     _, info = expected(case)
     out = obs["outcome"]
-    return {"step": case["step"], "R": case["R"], "P": case["P"], "len": len(case["script"]),
+    return {"step": case["step"] if not case.get("nested") else "optimizer+nested", "R": case["R"], "P": case["P"], "len": len(case["script"]),
             "filter": (case.get("filter") or ["none"])[0], "estimator": case.get("estimator"), "transform": case["transform"],
             "bounds": bool(case.get("bounds")), "linear": bool(case.get("linear")),
-            "outcome": out[1] if out[0] == "exc" else {1: "TOO_FEW", 2: "MAX_FUNCTIONS", 4: "USER_ABORT", 5: "OPT_FINISHED",
+            "outcome": out[1] if out[0] == "exc" else {1: "TOO_FEW", 2: "MAX_FUNCTIONS", 3: "NESTED_FAILED", 4: "USER_ABORT", 5: "OPT_FINISHED",
                                                        6: "EVAL_FINISHED"}.get(out[1], out[1]),
             "decider": info["decider"], "rmin0": case["rmin"] == 0, "maxf": case.get("maxf") is not None}
 
 
 def shrink(case):
     s = case["script"]
+    if case.get("nested"):
+        n = case["nested"]
+        for k in range(len(s) - 1, 0, -1):
+            yield {**case, "script": s[:k], "nested": {**n, "scripts": n["scripts"][:k]}}
+        for i, sc in enumerate(n["scripts"]):
+            if len(sc) > 1:
+                yield {**case, "nested": {**n, "scripts": n["scripts"][:i] + [sc[:-1]] + n["scripts"][i + 1:]}}
+        return
     for k in range(len(s)):
         if len(s) > 1:
             yield {**case, "script": s[:k] + s[k + 1:]}
@@ -761,6 +867,9 @@ def search(rng, case):
         yield from itertools.islice(_random("quick", rng), 0, 600)
         return
     yield from shrink(case)
+    if case.get("nested"):
+        yield from itertools.islice(_nested("quick", rng), 0, 300)
+        return
     for tr in TRANSFORMS:
         yield {**case, "transform": tr}
     for rmin in range(case["R"] + 1):
